@@ -71,7 +71,7 @@ def mutate_nontruth(rng: random.Random, base: dict) -> tuple[dict, list[str]]:
         tags.append("background")
     if rng.random() < 0.5:
         step = cfg["time"]["physics_step_sec"]
-        cfg["time"]["output_step_sec"] = step * rng.choice([1, 2, 3])
+        cfg["time"]["output_step_sec"] = rng.choice([step, step * 2, step * 3] + ([step // 2, step // 3] if step >= 6 else []))
         tags.append("output-step")
     for ev in cfg.get("events", []):
         if ev.get("event_type") == "impulse" and rng.random() < 0.5:
